@@ -142,6 +142,16 @@ pub fn apply_fault(seed: &[u8], case: &Value) -> Vec<u8> {
             nb.extend_from_slice(&b[end..]);
             b = nb;
         }
+        "tokens" => {
+            // several number tokens replaced at once (listed back to front so that positions stay valid)
+            for t in case["tokens"].as_array().unwrap() {
+                let (a, e) = (t[0].as_u64().unwrap() as usize, t[1].as_u64().unwrap() as usize);
+                let mut nb = b[..a].to_vec();
+                nb.extend_from_slice(t[2].as_str().unwrap().as_bytes());
+                nb.extend_from_slice(&b[e..]);
+                b = nb;
+            }
+        }
         "delete-range" => {
             let end = case["end"].as_u64().unwrap() as usize;
             b.drain(at..end);
@@ -214,6 +224,37 @@ pub fn run(tier: Tier, _seed: u64, tally: &mut Tally) -> CheckMeta {
                 }
             }
         }
+        // F6 small integer arrays ([a b c] with 2-4 integer tokens and nothing else): every assignment of {0, 1, 2^31-1} to
+        // all their tokens at once (field widths, index pairs, boxes: code often divides by or multiplies such groups)
+        if !corpus {
+            let toks = number_tokens(&s.bytes);
+            let b = &s.bytes;
+            let mut i = 0;
+            while i < n {
+                if b[i] == b'[' {
+                    if let Some(close) = (i + 1..n.min(i + 60)).find(|&j| b[j] == b']' || b[j] == b'[') {
+                        if b[close] == b']' && b[i + 1..close].iter().all(|c| c.is_ascii_digit() || *c == b' ') {
+                            let group: Vec<(usize, usize)> = toks.iter().cloned().filter(|&(a, e)| a > i && e <= close).collect();
+                            if (2..=4).contains(&group.len()) && (!s.big || group.len() <= 3) {
+                                let vals = ["0", "1", "2147483647"];
+                                let k = group.len();
+                                for code in 0..3usize.pow(k as u32) {
+                                    let mut c = code;
+                                    let mut list = vec![];
+                                    for gi in 0..k {
+                                        list.push(json!([group[gi].0, group[gi].1, vals[c % 3]]));
+                                        c /= 3;
+                                    }
+                                    list.reverse();
+                                    jobs.push((si, json!({"fault": "tokens", "at": i, "tokens": list})));
+                                }
+                            }
+                        }
+                    }
+                }
+                i += 1;
+            }
+        }
         if tier.thorough() {
             // F3 deletions and insertions
             for at in 0..n {
@@ -279,6 +320,21 @@ pub fn run(tier: Tier, _seed: u64, tally: &mut Tally) -> CheckMeta {
     for p in parts {
         tally.merge(p);
     }
+    // the hand-built hostile structures of C14 are byte strings too: each is walked as it is under all four configurations
+    let specials = crate::props::c14::special_cases();
+    let n_specials = specials.len();
+    let parts: Vec<Tally> = specials
+        .par_iter()
+        .map(|(name, bytes)| {
+            let mut t = Tally::new();
+            let seed = Seed { name: format!("special:{}", name), bytes: bytes.clone(), pw: vec![], big: false };
+            judge(&seed, bytes, &CONFIGS, "none", &mut t, &|| json!({"engine": "c01.fault", "seed": seed.name, "fault": "none"}));
+            t
+        })
+        .collect();
+    for p in parts {
+        tally.merge(p);
+    }
     tally.states = tally.evaluations;
     tally.transitions = tally.evaluations;
     tally.validated = tally.evaluations;
@@ -291,7 +347,7 @@ pub fn run(tier: Tier, _seed: u64, tally: &mut Tally) -> CheckMeta {
     CheckMeta {
         prop: "C01",
         level: "fault_enumeration",
-        rule: format!("edit neighbourhood of {} seeds (generated: small, xref-stream chain, rich classic / xref-stream+objstm, hostile extras with /Prev chain, RC4-encrypted; corpus: the 9 former crash inputs{}): every single-byte substitution at every offset by {} byte values, every truncation and prefix drop, every number token replaced by 8 boundary tokens{}; {} faulted inputs in total, each opened strict/tolerant x cached/uncached ({}) and walked completely (pages, inherited attributes, resources, fonts with widths and Unicode maps, images, forms, operators, trees, every object by number, scan) in a worker process: no panic, no crash, no call over 10 s. Distinct by (bytes, configuration).", seeds.len(), if tier.thorough() { ", all valid and password-protected corpus files up to 40 KB" } else { "" }, if tier.thorough() { "all 256 (seeds <= 2 KB) / 24" } else { "12 (small seeds) / 8 (large generated seeds) / 6 at <= 1000 evenly spaced offsets (corpus crash files)" }, if tier.thorough() { " and by every other number of the file, every single-byte deletion and insertion, dictionary-entry deletion/duplication, pairs of substitutions in 16-byte windows of the trailer region" } else { "" }, total_jobs, if tier.thorough() { "all four" } else { "all four on small seeds, strict-uncached + tolerant-cached on large ones" }),
+        rule: format!("edit neighbourhood of {} seeds (generated: small, xref-stream chain, rich classic / xref-stream+objstm, hostile extras with /Prev chain, RC4-encrypted; corpus: the 9 former crash inputs{}): every single-byte substitution at every offset by {} byte values, every truncation and prefix drop, every number token replaced by 8 boundary tokens, every array of 2-4 integers set to every assignment of {{0, 1, 2^31-1}}{}; plus the {} hand-built hostile structures of C14 as they are; {} faulted inputs in total, each opened strict/tolerant x cached/uncached ({}) and walked completely (pages, inherited attributes, resources, fonts with widths and Unicode maps, images, forms, operators, trees, every object by number, scan) in a worker process: no panic, no crash, no call over 10 s. Distinct by (bytes, configuration).", seeds.len(), if tier.thorough() { ", all valid and password-protected corpus files up to 40 KB" } else { "" }, if tier.thorough() { "all 256 (seeds <= 2 KB) / 24" } else { "12 (small seeds) / 8 (large generated seeds) / 6 at <= 1000 evenly spaced offsets (corpus crash files)" }, if tier.thorough() { " and by every other number of the file, every single-byte deletion and insertion, dictionary-entry deletion/duplication, pairs of substitutions in 16-byte windows of the trailer region" } else { "" }, n_specials, total_jobs, if tier.thorough() { "all four" } else { "all four on small seeds, strict-uncached + tolerant-cached on large ones" }),
         assumptions: vec!["no claim beyond the stated neighbourhoods of the seed set".into(), "resource proportionality is decided against fixed thresholds (10 s per walk, 3 GiB)".into()],
         exhaustive: true,
         bounds: json!({"faults_per_input": if tier.thorough() { 2 } else { 1 }}),
@@ -305,7 +361,8 @@ fn find_last(buf: &[u8], pat: &[u8]) -> Option<usize> {
 pub fn replay(case: &Value, tally: &mut Tally) {
     let name = case["seed"].as_str().unwrap_or("");
     let seeds = seeds(Tier::Thorough);
-    let Some(s) = seeds.iter().find(|s| s.name == name) else {
+    let special = name.strip_prefix("special:").and_then(|n| crate::props::c14::special_cases().into_iter().find(|(k, _)| k == n)).map(|(k, b)| Seed { name: format!("special:{}", k), bytes: b, pw: vec![], big: false });
+    let Some(s) = seeds.iter().find(|s| s.name == name).or(special.as_ref()) else {
         println!("unknown seed {}", name);
         return;
     };
